@@ -279,6 +279,11 @@ pub mod verif_api {
     pub fn extract_bound(tracking: Tracking) -> (i64, ChronyClockStatus) {
         extract_bound_from_tracking(tracking)
     }
+
+    /// The entry point of the thread itself, `run()`, segment path and start-up code included.
+    pub fn run_real(ctx: Context, max_drift_ppb: u32) {
+        run(ctx, max_drift_ppb)
+    }
 }
 
 /// Entry point to this thread.
